@@ -27,7 +27,7 @@ void vf_x86_mul64(u64 *rax, u64 *rdx, u64 src) { __CPROVER_assert(0, "no multipl
  * stand-in for the overloads whose fully symbolic unit does not finish in the budget):
  *   1: unit strides, reversed index lists         2: stride 3, index lists (5k+3) mod 11
  *   3: input stride 0 (broadcast of element 0), output stride 2, input index lists constant 5, output lists spread
- *   4: large stride 65537, index lists k*65537 */
+ *   4: large stride 4099, index lists k*131 */
 #if VF_SHAPE == 1
 static const u64 SHI4[4] = {3,2,1,0}, SHI8[8] = {7,6,5,4,3,2,1,0}, SHO4[4] = {3,2,1,0}, SHO8[8] = {7,6,5,4,3,2,1,0};
 #define SH_STRIDE_IN(p) ((u64)1)
@@ -74,18 +74,18 @@ static const u64 SHI4[4] = {5,5,5,5}, SHI8[8] = {5,5,5,5,5,5,5,5}, SHO4[4] = {3,
 #define IDXPAT_OUT4(p) (p[0] == 3 && p[1] == 8 && p[2] == 2 && p[3] == 7)
 #define IDXPAT_OUT8(p) (p[0] == 3 && p[1] == 8 && p[2] == 2 && p[3] == 7 && p[4] == 1 && p[5] == 6 && p[6] == 0 && p[7] == 5)
 #elif VF_SHAPE == 4
-static const u64 SHI4[4] = {0,65537,131074,196611}, SHI8[8] = {0,65537,131074,196611,262148,327685,393222,458759}, SHO4[4] = {0,65537,131074,196611}, SHO8[8] = {0,65537,131074,196611,262148,327685,393222,458759};
-#define SH_STRIDE_IN(p) ((u64)65537)
-#define SH_STRIDE_OUT(p) ((u64)65537)
+static const u64 SHI4[4] = {0,131,262,393}, SHI8[8] = {0,131,262,393,524,655,786,917}, SHO4[4] = {0,131,262,393}, SHO8[8] = {0,131,262,393,524,655,786,917};
+#define SH_STRIDE_IN(p) ((u64)4099)
+#define SH_STRIDE_OUT(p) ((u64)4099)
 #define SH_IDX_IN4(p) ((u64 *)SHI4)
 #define SH_IDX_IN8(p) ((u64 *)SHI8)
 #define SH_IDX_OUT4(p) ((u64 *)SHO4)
 #define SH_IDX_OUT8(p) ((u64 *)SHO8)
 #define FRESH_IDX(p, n) 1
-#define STRIDEPAT_IN(s) ((s) == 65537)
-#define STRIDEPAT_OUT(s) ((s) == 65537)
-#define IDXPAT_IN4(p) (p[0] == 0 && p[1] == 65537 && p[2] == 131074 && p[3] == 196611)
-#define IDXPAT_IN8(p) (p[0] == 0 && p[1] == 65537 && p[2] == 131074 && p[3] == 196611 && p[4] == 262148 && p[5] == 327685 && p[6] == 393222 && p[7] == 458759)
+#define STRIDEPAT_IN(s) ((s) == 4099)
+#define STRIDEPAT_OUT(s) ((s) == 4099)
+#define IDXPAT_IN4(p) (p[0] == 0 && p[1] == 131 && p[2] == 262 && p[3] == 393)
+#define IDXPAT_IN8(p) (p[0] == 0 && p[1] == 131 && p[2] == 262 && p[3] == 393 && p[4] == 524 && p[5] == 655 && p[6] == 786 && p[7] == 917)
 #define IDXPAT_OUT4(p) IDXPAT_IN4(p)
 #define IDXPAT_OUT8(p) IDXPAT_IN8(p)
 #else
